@@ -78,6 +78,9 @@ func (a *Advance) ValidateWithContext(ctx context.Context) error {
 // CalculateFrom will update the amount using the rate of the provided
 // total, if defined.
 func (a *Advance) CalculateFrom(totalWithTax num.Amount) {
+	if a == nil {
+		return
+	}
 	if a.Percent != nil {
 		a.Amount = a.Percent.Of(totalWithTax)
 	}
